@@ -32,7 +32,7 @@ class Arr:
     """Symbolic array.  dims: tuple of labels (None = broadcast axis).  mask: pending boolean
     selection (Poly) from a masked read.  unit: unit tag (Poly) or None when not tracked.
     The value semantics of a Quantity is "the physical quantity" (value * unit atoms)."""
-    __slots__ = ('dims', 'poly', 'mask', 'unit', 'fresh', 'dt', 'xr', 'conv', 'view_src', 'arr0')
+    __slots__ = ('dims', 'poly', 'mask', 'unit', 'fresh', 'dt', 'xr', 'conv', 'view_src', 'arr0', 'dt_src')
 
     def __init__(self, dims, poly, mask=None, unit=None, fresh=False, dt=None):
         self.dims = tuple(dims)
@@ -50,6 +50,8 @@ class Arr:
         self.view_src = None
         # a 0-d *array* (np.asarray of a number): the same value as the number, but not a scalar for np.isscalar
         self.arr0 = False
+        # for dt == 'inherit': the names of the caller-supplied arrays the element type was taken from
+        self.dt_src = None
 
     @property
     def ndim(self):
@@ -58,6 +60,7 @@ class Arr:
     def with_(self, **kw):
         a = Arr(self.dims, self.poly, self.mask, self.unit, dt=self.dt)
         a.conv = self.conv
+        a.dt_src = self.dt_src
         if 'poly' not in kw and 'mask' not in kw:
             a.xr = self.xr
         for k, v in kw.items():
@@ -109,6 +112,14 @@ class Marker:
 
     def __repr__(self):
         return 'Marker(%s)' % self.name
+
+
+class _DtypeOf(Marker):
+    """x.dtype: the element type of the array x (known, or 'that of the caller's array')"""
+    def __init__(self, arr):
+        Marker.__init__(self, 'dtype')
+        self.kind = arr.dt if arr.dt in ('f', 'i') else 'inherit'
+        self.src = tuple(sorted({str(x_).split('@')[0] for x_ in alg.leaf_syms(arr.poly)[0]})) if self.kind == 'inherit' else None
 
 
 class Closure:
@@ -1164,6 +1175,20 @@ class Interp:
             new_dims = []
             for ix in idx:
                 if isinstance(ix, ast.Slice):
+                    if (ix.lower or ix.upper or ix.step) and len(chain_nodes) == 1 and len(idx) == 1 and old.ndim == 1 and old.mask is None \
+                            and old.dims[0] in self.axis_len and self.axis_len[old.dims[0]] <= 64:
+                        # x[a:b:c] = v on an axis of known length with fixed bounds: the positions are known, one by one
+                        b_ = [self.expr(x_, env, mod) if x_ is not None else None for x_ in (ix.lower, ix.upper, ix.step)]
+                        b_ = [int(x_.poly.const_value()) if isinstance(x_, Arr) and x_.ndim == 0 and x_.poly.is_const() and x_.poly.const_value().denominator == 1 else x_ for x_ in b_]
+                        if all(x_ is None or (isinstance(x_, int) and not isinstance(x_, bool)) for x_ in b_) and b_[2] != 0:
+                            r_ = self._store_positions(old, list(range(*slice(*b_).indices(self.axis_len[old.dims[0]]))), val, t, mod)
+                            if r_ is not None:
+                                setv(r_)
+                                _replace_aliases(env, old, r_)
+                                for fr_ in self.frames:
+                                    if fr_ is not env:
+                                        _replace_aliases(fr_, old, r_)
+                                return
                     if ix.lower or ix.upper or ix.step:
                         setv(Unk('store through a partial slice', t))
                         return
@@ -1254,13 +1279,11 @@ class Interp:
         if old.unit is not None and v.unit is not None and not (old.unit == v.unit) and not (vp.is_const()):
             # astropy converts on assignment; the physical value is unchanged, the stored number is a rounded conversion
             conv = conv + (('assign', alg.show(v.unit, 30), alg.show(old.unit, 30), alg.show(vp, 60), getattr(t, 'lineno', 0)),)
-        if old.dt in ('inherit', 'i') and v.dt == 'f':
-            self.findings.append(Finding('dtype', 'a real-valued result is stored into %s, %s: the values are truncated to integers%s'
-                                         % (up(node), 'a buffer created with the element type of a caller-supplied array' if old.dt == 'inherit' else 'an integer buffer',
-                                            ' whenever the caller supplies integers' if old.dt == 'inherit' else ''), t, mod.path))
+        self._dtype_finding(old, v, node, t, mod)
         newp = old.poly + cond * (vp - old.poly)
         newv = Arr(old.dims, newp, old.mask, old.unit, dt=old.dt)
         newv.conv = conv
+        newv.dt_src = old.dt_src
         setv(newv)
         _replace_aliases(env, old, newv)      # an in-place store is seen through every view of the buffer
         for fr_ in self.frames:
@@ -1732,6 +1755,51 @@ class Interp:
         self.axis_len[newlab] = en_ - st_
         return Arr((newlab,) + rest, alg.array_fn('slice', lab, whole.poly, C(None) if st_ == 0 else P(num(st_)), P(num(en_)), C(None), out=newlab), unit=ref.unit, dt=ref.dt)
 
+    def _store_positions(self, old, positions, val, t, mod):
+        """the 1-d array ``old`` (axis of known length) after ``old[positions] = val``, position by position; None when the value does not fit"""
+        lab = old.dims[0]
+        n = self.axis_len[lab]
+        v = val
+        if isinstance(v, (int, float, Fraction)) and not isinstance(v, bool):
+            v = self._as_arr(v)
+        if isinstance(v, Foreign) and hasattr(v, 'as_value'):
+            v = self._as_arr(v)
+        if not isinstance(v, Arr) or v.mask is not None or v.ndim > 1:
+            return None
+        if v.ndim == 1:
+            vl = v.dims[0]
+            ln = 1 if vl is None else self.axis_len.get(vl)
+            if ln is None:
+                return None
+            if ln != len(positions) and ln != 1:
+                raise PyRaise('ValueError', 'could not broadcast %d values into %d positions' % (ln, len(positions)))
+            vals = [v.poly if vl is None else alg.index_at(v.poly, vl, num(k_ if ln > 1 else 0)) for k_ in range(len(positions))]
+        else:
+            vals = [v.poly] * len(positions)
+        elems = [alg.index_at(old.poly, lab, num(j_)) for j_ in range(n)]
+        for pos_, vp_ in zip(positions, vals):
+            elems[pos_] = vp_
+        if positions:
+            self._dtype_finding(old, v, t, t, mod)
+        run = alg.sym('idx:' + lab, lab)
+        p = Poly()
+        for j_, e_ in enumerate(elems):
+            p = p + alg.mk_ind('==0', run - num(j_)) * e_
+        r_ = Arr(old.dims, p, None, old.unit, dt=old.dt)
+        r_.conv = old.conv
+        r_.dt_src = old.dt_src
+        return r_
+
+    def _dtype_finding(self, old, v, node, t, mod):
+        src = old.dt_src or ()
+        other = v.dt in (None, 'inherit') and old.dt == 'inherit' and src and not v.poly.is_const() \
+            and not ({str(x_).split('@')[0] for x_ in alg.leaf_syms(v.poly)[0]} <= set(src)) and not (v.dt == 'inherit' and v.dt_src and set(v.dt_src) <= set(src))
+        if old.dt in ('inherit', 'i') and (v.dt == 'f' or other):
+            self.findings.append(Finding('dtype', 'a %s is stored into %s, %s: the values are truncated to integers%s'
+                                         % ('real-valued result' if v.dt == 'f' else 'value of another array (%s)' % ', '.join(sorted({str(x_) for x_ in alg.leaf_syms(v.poly)[0]})[:3]),
+                                            up(node), 'a buffer created with the element type of a caller-supplied array' + (' (%s)' % ', '.join(src) if src else '') if old.dt == 'inherit' else 'an integer buffer',
+                                            ' whenever the caller supplies integers there' if old.dt == 'inherit' else ''), t, mod.path))
+
     def _positional(self, lab):
         """an axis that only counts positions (a list made into an array, a fixed slice of one, concrete repeats), of known length: two such axes of the same
         length line up position by position, as numpy lines them up"""
@@ -2029,7 +2097,7 @@ class Interp:
             if name == 'T' and v.ndim == 2:
                 return v.with_(dims=(v.dims[1], v.dims[0]))
             if name == 'dtype':
-                return Marker('dtype')
+                return _DtypeOf(v)
             if name in ('data',):
                 return v
             if name == 'physical_type':
@@ -2506,9 +2574,24 @@ class Interp:
             if last in ('zeros', 'ones', 'empty'):
                 sh = args[0]
                 c = 1 if last == 'ones' else 0
-                dt = _dtype_kind(kw.get('dtype', args[1] if len(args) > 1 else None), 'f')
+                dta_ = kw.get('dtype', args[1] if len(args) > 1 else None)
+                dt = _dtype_kind(dta_, 'f')
+                if isinstance(sh, Arr) and sh.ndim == 0 and sh.poly.is_const() and sh.poly.const_value().denominator == 1:
+                    sh = int(sh.poly.const_value())
+                if isinstance(sh, tuple) and len(sh) == 1 and isinstance(sh[0], int) and not isinstance(sh[0], bool):
+                    sh = sh[0]
+                if isinstance(sh, int) and not isinstance(sh, bool) and 0 <= sh <= 64:
+                    # a concrete number of elements: a fresh axis that only counts positions
+                    self._n_lists = getattr(self, '_n_lists', 0) + 1
+                    lab_ = 'pos#%d' % self._n_lists
+                    self.axis_len[lab_] = sh
+                    r_ = Arr((lab_,), num(c), unit=num(1), fresh=True, dt=dt)
+                    r_.dt_src = dta_.src if isinstance(dta_, _DtypeOf) else None
+                    return r_
                 if isinstance(sh, Shape):
-                    return Arr(sh.dims, num(c), unit=num(1), fresh=True, dt=dt)
+                    r_ = Arr(sh.dims, num(c), unit=num(1), fresh=True, dt=dt)
+                    r_.dt_src = dta_.src if isinstance(dta_, _DtypeOf) else None
+                    return r_
                 def lab_of(s_):
                     # the axis with that many positions: a length read off an array, or the count an axis was created with
                     if not isinstance(s_, Arr) or s_.ndim != 0:
@@ -2535,7 +2618,10 @@ class Interp:
                 if not isinstance(x, Arr):
                     return x
                 dt = _dtype_kind(kw.get('dtype', args[1] if len(args) > 1 else None), x.dt if x.dt in ('f', 'i') else 'inherit')
-                return Arr(x.dims, num(1 if last == 'ones_like' else 0), unit=num(1), fresh=True, dt=dt)
+                r_ = Arr(x.dims, num(1 if last == 'ones_like' else 0), unit=num(1), fresh=True, dt=dt)
+                if dt == 'inherit' and not ('dtype' in kw or len(args) > 1):
+                    r_.dt_src = tuple(sorted({str(x_).split('@')[0] for x_ in alg.leaf_syms(x.poly)[0]}))
+                return r_
             if last in ('argmin', 'argmax'):
                 x = self._as_arr(args[0])
                 ax = kw.get('axis', args[1] if len(args) > 1 else None)
@@ -3702,6 +3788,8 @@ def _dtype_kind(v, default):
     """element-type class of a dtype argument: 'f' | 'i' | None (not recognised: untracked)"""
     if v is None:
         return default
+    if isinstance(v, _DtypeOf):
+        return v.kind
     name = v.name if isinstance(v, Marker) else (v if isinstance(v, str) else getattr(v, '__name__', None))
     if isinstance(v, type):
         name = v.__name__
